@@ -110,6 +110,14 @@ func mapRanges(g *load.G, suffixes []string, skipFile func(string) bool) []range
 func effectSignature(p *packages.Package, body *ast.BlockStmt) string {
 	info := p.TypesInfo
 	calls, writes := map[string]bool{}, map[string]bool{}
+	var enclosing *ast.FuncDecl
+	for _, f := range p.Syntax {
+		for _, d := range f.Decls {
+			if fd, ok := d.(*ast.FuncDecl); ok && fd.Body != nil && fd.Pos() <= body.Pos() && body.End() <= fd.End() {
+				enclosing = fd
+			}
+		}
+	}
 	inBody := func(obj types.Object) bool { return obj != nil && obj.Pos() >= body.Pos() && obj.Pos() < body.End() }
 	baseIdent := func(e ast.Expr) *ast.Ident {
 		for {
@@ -160,6 +168,11 @@ func effectSignature(p *packages.Package, body *ast.BlockStmt) string {
 				calls["?"] = true
 			default:
 				if id, ok := x.Fun.(*ast.Ident); ok {
+					if fn, ok := info.ObjectOf(id).(*types.Func); ok && fn.Pkg() == p.Types && enclosing != nil && fn == info.Defs[enclosing.Name] {
+						// the function calling itself: the same role as a recursive closure
+						calls["closure"] = true
+						return true
+					}
 					if fn, ok := info.ObjectOf(id).(*types.Func); ok && fn.Pkg() == p.Types && sideEffectFree(p, fn.Name(), 0) {
 						return true
 					}
@@ -229,8 +242,10 @@ func classifyRange(p *packages.Package, site rangeSite) (class string, why strin
 						return true
 					}
 					// method value calls of pure analysis getters
-					if strings.HasSuffix(callName(ce), ".InitialNames") || strings.HasSuffix(callName(ce), ".IsNullable") || strings.HasSuffix(callName(ce), ".Clone") {
-						return true
+					if cs := callSel(ce); cs == "InitialNames" || cs == "IsNullable" || cs == "Clone" {
+						if _, isSel := ce.Fun.(*ast.SelectorExpr); isSel {
+							return true
+						}
 					}
 					okp = false
 				}
@@ -372,6 +387,10 @@ func classifyRange(p *packages.Package, site rangeSite) (class string, why strin
 						return "only-element", ""
 					}
 				}
+				// the map is a parameter and every caller in the package passes a map it knows to have at most one element
+				if onlyElementAtCallers(p, site.Outer, m) {
+					return "only-element", ""
+				}
 				return "", "takes the first element of a map that may have several"
 			}
 		}
@@ -382,6 +401,84 @@ func classifyRange(p *packages.Package, site rangeSite) (class string, why strin
 		return c, ""
 	}
 	return "", w
+}
+
+// onlyElementAtCallers: m is a parameter of fd, fd is called somewhere in the package, and at every call site the
+// corresponding argument is known to have at most one element (an enclosing `len(arg) <= 1`, or the else arm of
+// `len(arg) > 1`).
+func onlyElementAtCallers(p *packages.Package, fd *ast.FuncDecl, m string) bool {
+	if fd == nil || fd.Type.Params == nil {
+		return false
+	}
+	idx, i := -1, 0
+	for _, f := range fd.Type.Params.List {
+		for _, nm := range f.Names {
+			if nm.Name == m {
+				idx = i
+			}
+			i++
+		}
+	}
+	if idx < 0 {
+		return false
+	}
+	// the parameter is not reassigned before the loop
+	reassigned := false
+	ast.Inspect(fd.Body, func(n ast.Node) bool {
+		if as, ok := n.(*ast.AssignStmt); ok {
+			for _, l := range as.Lhs {
+				if nospace(l) == m {
+					reassigned = true
+				}
+			}
+		}
+		return true
+	})
+	if reassigned {
+		return false
+	}
+	calls := 0
+	for _, f := range p.Syntax {
+		for _, d := range f.Decls {
+			caller, ok := d.(*ast.FuncDecl)
+			if !ok || caller.Body == nil {
+				continue
+			}
+			okAll := true
+			ast.Inspect(caller.Body, func(n ast.Node) bool {
+				ce, ok := n.(*ast.CallExpr)
+				if !ok {
+					return true
+				}
+				var id *ast.Ident
+				switch fn := ce.Fun.(type) {
+				case *ast.Ident:
+					id = fn
+				case *ast.SelectorExpr:
+					id = fn.Sel
+				}
+				if id == nil || p.TypesInfo.Uses[id] != p.TypesInfo.Defs[fd.Name] || idx >= len(ce.Args) {
+					return true
+				}
+				calls++
+				arg := nospace(ce.Args[idx])
+				known := false
+				for _, f := range factsAt(caller.Body, ce.Pos()) {
+					if f == "len("+arg+")<=1" || f == "len("+arg+")==1" || f == "len("+arg+")<2" {
+						known = true
+					}
+				}
+				if !known {
+					okAll = false
+				}
+				return true
+			})
+			if !okAll {
+				return false
+			}
+		}
+	}
+	return calls > 0
 }
 
 // condReadsLoopWrites: the condition (and init) of is reads a container that the loop body writes, other than
@@ -695,24 +792,55 @@ func C19(c *Ctx) {
 			r.Fatal("anchor builder.%s not found", fn)
 			continue
 		}
+		// on the normalised paths (helpers expanded): the per-rule writer is called for element #d of a loop over
+		// <grammar>.Rules, a slice, and in no other loop
 		found := false
-		ast.Inspect(fd.Body, func(n ast.Node) bool {
-			if rs, ok := n.(*ast.RangeStmt); ok {
-				t := bp.TypesInfo.TypeOf(rs.X)
-				if _, isSlice := t.Underlying().(*types.Slice); isSlice && strings.HasSuffix(nospace(rs.X), ".Rules") {
-					found = true
-				} else {
-					okEmit = false
-					emitWhy = append(emitWhy, fn+" ranges over "+nospace(rs.X))
+		gp := firstParam(fd)
+		if tv := bp.TypesInfo.TypeOf(fd.Type.Params.List[0].Type); tv != nil {
+			if pt, ok := tv.(*types.Pointer); ok {
+				if st, ok := pt.Elem().Underlying().(*types.Struct); ok {
+					for k := 0; k < st.NumFields(); k++ {
+						if st.Field(k).Name() == "Rules" {
+							if _, isSlice := st.Field(k).Type().Underlying().(*types.Slice); !isSlice {
+								okEmit = false
+								emitWhy = append(emitWhy, "Grammar.Rules is not a slice")
+							}
+						}
+					}
 				}
 			}
-			return true
-		})
+		}
+		b := recvName(fd)
+		for _, p := range c.builderNorm().normPaths(fd) {
+			var loops []string
+			for _, e := range p {
+				switch e.Kind {
+				case "loop":
+					loops = append(loops, e.Text)
+				case "endloop":
+					if len(loops) > 0 {
+						loops = loops[:len(loops)-1]
+					}
+				case "call":
+					if strings.HasPrefix(e.Text, b+".writeRule(") || strings.HasPrefix(e.Text, b+".writeRuleCode(") {
+						d := len(loops)
+						want := fmt.Sprintf("%s.Rules[#%d])", gp, d)
+						if d == 0 || loops[d-1] != "range "+gp+".Rules" || !strings.HasSuffix(e.Text, "("+want) {
+							okEmit = false
+							emitWhy = append(emitWhy, fn+" calls "+abbreviate(e.Text)+" outside a loop over "+gp+".Rules in slice order")
+						} else {
+							found = true
+						}
+					}
+				}
+			}
+		}
 		if !found {
 			okEmit = false
 			emitWhy = append(emitWhy, fn+" does not range over the rule slice")
 		}
 	}
+	emitWhy = uniq(emitWhy)
 	r.Check(okEmit, "C19-c", "G.builder:emission-in-rule-order", "", "builder/builder.go", "writeGrammar and buildParser range over grammar.Rules", strings.Join(emitWhy, "; "))
 	// ---- t: runtime
 	for _, v := range c.SemanticVariants() {
